@@ -8,7 +8,7 @@ os.makedirs(os.path.join(V, 'fingerprints'), exist_ok=True)
 ids = sys.argv[1:] or [f[:-3].upper() for f in sorted(os.listdir(os.path.join(V, 'harness', 'props'))) if f.startswith('c') and f.endswith('.py')]
 for pid in ids:
     mod = importlib.import_module('props.' + pid.lower())
-    mirrors = getattr(mod, 'MIRRORS', None)
+    mirrors = fingerprint.mirrors_of(mod, pid)
     if not mirrors:
         print(pid, 'no MIRRORS'); continue
     cur = fingerprint.compute(stage.REPO, mirrors)
